@@ -735,6 +735,10 @@ class ParallelProcess(Process):
         self._ended = False
         self._pending_command: Optional[
             Tuple[str, Optional[tuple], Optional[dict]]] = None
+        # The schema is only ever assigned through this wrapper, so the
+        # parent can answer reads itself, also while the child is busy.
+        self._schema_copy: Optional[Schema] = None
+        self._schema_known = False
 
     def send_command(
             self, command: str, args: Optional[tuple] = None,
@@ -800,11 +804,15 @@ class ParallelProcess(Process):
 
     @property
     def schema(self) -> Optional[Schema]:
+        if self._schema_known:
+            return self._schema_copy
         return self.run_command('schema')
 
     @schema.setter
     def schema(self, value: Optional[Schema]) -> None:
         self.run_command('set_schema', (value,))
+        self._schema_copy = value
+        self._schema_known = True
 
     def merge_overrides(self, override: Schema) -> None:
         self.run_command('merge_overrides', (override,))
